@@ -1,8 +1,9 @@
 """C04  Random-access and concurrent immutable reads  (Engine G, stateless model checking).
 
 File: 61 bytes, 2-of-3, 3 segments of 22/22/17 bytes (AES-block and segment boundaries differ).
-(a) EVERY (offset, size) of the catalogue below as a single read, on a fresh node and as the second
-    read on a node that already served another range; the same for literal files of 0, 1, 55 bytes;
+(a) EVERY (offset, size) of the catalogue below as a single read, on a fresh node (whose guess of the
+    segment size is right, or too small: reader default 10 or 16 bytes against real 22) and as the
+    second read on a node that already served another range; the same for literal files of 0, 1, 55 bytes;
 (b) every multiset of 2 (quick) / 3 (thorough) ranges from a 6-element catalogue issued concurrently
     on ONE node object, under every schedule with <= d deviations, where a deviation is a reordered
     delivery, an early timer, or a consumer reaction: pause at a write (resumed later as a
@@ -35,6 +36,10 @@ def single_cases():
         for sz in SIZES:
             out.append(dict(BASE, groups=[[[off, sz]]]))
             out.append(dict(BASE, groups=[[[23, 20]], [[off, sz]]]))
+            # a reader whose own default segment size (the basis of a fresh node's guess of the segment
+            # boundaries) is smaller than the one the file was uploaded with
+            for guess in (10, 16):
+                out.append(dict(BASE, guess=guess, groups=[[[off, sz]]]))
     return out
 
 
@@ -105,7 +110,7 @@ def run(tier, seed):
     for cases, d in plan:
         res.merge(common.pmap(lib_imm.explore_chunk, cases, (seed, d, 0, 20000, "C04"), chunks=len(cases)))
         desc.append("%d concurrent multisets of %d reads%s at d<=%d%s" % (len(cases), len(cases[0]["groups"][0] if cases[0].get("explore_groups") != [1] else cases[0]["groups"][1]), " followed by further reads on the node" if cases[0].get("explore_groups") == [0] else "", d, " (several answers per reactor turn)" if cases[0].get("batch") else ""))
-    cov = lib_imm.coverage_from(res, "single reads: %d (offset,size) pairs x {fresh node, node that already read another range} + %d literal reads at the default schedule (%d executions); then %s, deviations = reordered deliveries, early timers, consumer pause/stop at any write" % (len(OFFS) * len(SIZES), len(lits), n0, "; ".join(desc)),
+    cov = lib_imm.coverage_from(res, "single reads: %d (offset,size) pairs x {fresh node, fresh node guessing a smaller segment size (2 values), node that already read another range} + %d literal reads at the default schedule (%d executions); then %s, deviations = reordered deliveries, early timers, consumer pause/stop at any write" % (len(OFFS) * len(SIZES), len(lits), n0, "; ".join(desc)),
                                 {"deviation_bound_completed": max(p[1] for p in plan)})
     return res, cov
 
